@@ -494,6 +494,7 @@ func checkMapping(p *Prog, r *Report) {
 
 // checkStreamSymmetry: session-level read/write pairs.
 func checkStreamSymmetry(p *Prog, r *Report) {
+	defer checkListFraming(p, r, "C14/LIST-FRAMING")
 	rule := "C14/STREAM-SYMMETRY"
 	r.Rule(rule, "handshake: with negotiate the client writes its version then reads, the server reads then writes; the seed is written/read once; the daemon receiver reads a filter list iff DeleteMode, which the client sender must then write under the same condition (or never forward --delete)", 3)
 	hc := anchorFunc(p, r, pkgRsyncd, "Server", "handleConn")
@@ -789,4 +790,51 @@ func optionImplications(p *Prog) []optImplication {
 		}
 	}
 	return out
+}
+
+// checkListFraming — a zero-terminated list of length-prefixed strings must
+// never contain an empty string: its length prefix is the terminator, the
+// reader stops there and takes the remaining rules for the next protocol
+// phase. In every production function that writes Conn.WriteInt32(len(s)) for a
+// string s and also the constant terminator WriteInt32(0), the length write
+// must be dominated by a test that excludes the empty string.
+func checkListFraming(p *Prog, r *Report, rule string) {
+	r.Rule(rule, "a zero-terminated list of length-prefixed strings (the filter-rule list) never carries an empty string: every Conn.WriteInt32(len(s)) in a function that also writes the terminator WriteInt32(0) is dominated by a test excluding s == \"\" (an empty rule, e.g. -f '', would be read as the end of the list and desynchronise the stream)", 1)
+	n := 0
+	for _, fn := range p.ModFuncs {
+		if fn.Blocks == nil || isTestSupport(pkgPathOfFunc(fn)) {
+			continue
+		}
+		var lens []ssa.CallInstruction
+		term := false
+		allCalls(fn, func(c ssa.CallInstruction) {
+			if calleeName(c) != "(*"+pkgWire+".Conn).WriteInt32" {
+				return
+			}
+			a := c.Common().Args[1]
+			if k, ok := constInt(a); ok && k == 0 {
+				term = true
+				return
+			}
+			if lc, ok := stripConv(a).(*ssa.Call); ok {
+				if bi, ok := lc.Common().Value.(*ssa.Builtin); ok && bi.Name() == "len" {
+					if bt, ok := lc.Common().Args[0].Type().Underlying().(*types.Basic); ok && bt.Info()&types.IsString != 0 {
+						lens = append(lens, c)
+					}
+				}
+			}
+		})
+		if !term {
+			continue
+		}
+		for _, c := range lens {
+			n++
+			s := stripConv(c.Common().Args[1]).(*ssa.Call).Common().Args[0]
+			ok, _ := minLenEstablished(s, 1, c, 0)
+			r.Cond(ok, rule, funcKey(fn)+" writes len(s) into a zero-terminated list", p.Pos(instrPos(c)), "an empty string is written as length 0, which the reader takes for the end of the list: the rest of the list is read as the next protocol phase")
+		}
+	}
+	if n == 0 {
+		r.Unk(rule, "list writers", "-", "no zero-terminated string list writer found: the filter list is sent differently now, re-read it")
+	}
 }
